@@ -48,6 +48,11 @@ add("C15", "proof",
     "ASCII spellings. Translator (tools/gotrans) trusted for the AST facts, cross-checked dynamically. Known residual: a chain containing both ROLZ and ROLZX selects the ROLZX variant for both stages on both sides (strings.Contains on the whole chain) - consistent and decodable, format-compatible, not repaired.",
     "Coq proof over a model regenerated from the Go AST + exhaustive differential of name lookups and stream bytes", "5.9, 6/C15")
 
+add("C10", "translation_validation",
+    "Two code histories compared: the vendored reference snapshot (built at check time) encodes and decodes (input, configuration) pairs; wherever the reference round-trips, the current tree must decode the reference stream to exactly the reference decoder's output (1 and 3 jobs); the archived golden corpus (41 streams: every transform, entropy codec, checksum width) must decode to its recorded originals. Proof obligations (coq/Properties/C10.v): every package-level constant and static table extracted from the current sources by tools/gotrans equals the pinned extraction of the reference (Closed under the global context; re-checked against regenerated Gen/Consts.v on every run).",
+    "The reference snapshot is trusted to be the pinned version. Tables filled by init() code are not covered by the constant obligation (only by the behavioural comparison). Encoder-side repairs made in /repo are outside this property (it constrains the decoder).",
+    "reference-build vs current-build differential + Coq equality obligations on regenerated constants", "6/C10")
+
 NOT_YET = {}
 def main():
     props = [json.loads(l)["id"] for l in open(os.path.join(ROOT, "properties.jsonl"))]
